@@ -28,9 +28,11 @@ func (c *Ctx) leaveModel() *handlerModel {
 				callsDead = true
 			}
 		}
+		// ... and uses the departure-notification channel (receives from it, or hands it
+		// to a helper that does)
 		waits := false
 		inspectFn(fn, func(n ast.Node) bool {
-			if u, ok := n.(*ast.UnaryExpr); ok && u.Op == token.ARROW && p.FieldOwner(u.X) == "Memberlist.leaveBroadcast" {
+			if e, ok := n.(ast.Expr); ok && p.FieldOwner(e) == "Memberlist.leaveBroadcast" {
 				waits = true
 			}
 			return true
@@ -163,14 +165,24 @@ func checkLeaveWait(c *Ctx, l *handlerModel) {
 	p := c.P
 	rule := "Leave never blocks past its timeout: the wait for the departure notification sits in a select with a timer arm armed (time.After(timeout)) whenever timeout > 0, and is entered only when another live member exists"
 	c.Rule(rule)
+	// the select in which the exploration receives the departure notification (the
+	// receive may sit in a helper that is handed the channel)
+	recvAt := map[token.Pos]bool{}
+	for _, e := range l.x.Effects {
+		if e.Class == "RECV" && e.Detail["chan"] == "m.leaveBroadcast" {
+			recvAt[e.Pos] = true
+		}
+	}
 	var sel *ast.SelectStmt
+	var waitArm ast.Expr
 	inspectFn(l.fn, func(n ast.Node) bool {
 		if s, ok := n.(*ast.SelectStmt); ok {
 			for _, cc := range s.Body.List {
 				if comm := cc.(*ast.CommClause).Comm; comm != nil {
 					if es, ok := comm.(*ast.ExprStmt); ok {
-						if u, ok := ast.Unparen(es.X).(*ast.UnaryExpr); ok && u.Op == token.ARROW && p.FieldOwner(u.X) == "Memberlist.leaveBroadcast" {
+						if u, ok := ast.Unparen(es.X).(*ast.UnaryExpr); ok && u.Op == token.ARROW && (recvAt[u.Pos()] || p.FieldOwner(u.X) == "Memberlist.leaveBroadcast") {
 							sel = s
+							waitArm = u.X
 						}
 					}
 				}
@@ -187,7 +199,7 @@ func checkLeaveWait(c *Ctx, l *handlerModel) {
 	for _, cc := range sel.Body.List {
 		if comm := cc.(*ast.CommClause).Comm; comm != nil {
 			if es, ok := comm.(*ast.ExprStmt); ok {
-				if u, ok := ast.Unparen(es.X).(*ast.UnaryExpr); ok && u.Op == token.ARROW && p.FieldOwner(u.X) != "Memberlist.leaveBroadcast" {
+				if u, ok := ast.Unparen(es.X).(*ast.UnaryExpr); ok && u.Op == token.ARROW && u.X != waitArm {
 					chObj = u.X
 					// that arm must return an error
 					ret := false
